@@ -465,6 +465,12 @@ func propTable() map[string]*PropSpec {
 		tccr.RequireReach = nil
 		q = append(q, tcc, tccr)
 		th = append(th, tcc)
+		// one member alone holds the quorum weight: its certificate has a single signer
+		hv3 := mk(3, 0, 1)
+		hv3.Name += "/weights=6"
+		hv3.Params = map[string]int{"me": 3, "honest": 0, "sym": 1, "weights": 6}
+		q = append(q, hv3)
+		th = append(th, hv3)
 		// a committee with a zero-weight member whose genuine COMMIT ends up in the certificate
 		zw := mk(1, 3, 1)
 		zw.Name += "/weights=5"
@@ -507,6 +513,14 @@ func propTable() map[string]*PropSpec {
 				if me == 2 {
 					q4 = append(q4, c)
 				}
+			}
+		}
+		for _, me := range []int{2, 3} {
+			pv := rc(fmt.Sprintf("C04_PanickingValidator/me=%d", me), ".", "C04_PanickingValidator", map[string]int{"me": me})
+			pv.RequireReach = []string{"C04.panicking_validator.done"}
+			th4 = append(th4, pv)
+			if me == 2 {
+				q4 = append(q4, pv)
 			}
 		}
 		// boundary: every hash of the symbolic NEW_VIEW is empty
@@ -566,6 +580,24 @@ func propTable() map[string]*PropSpec {
 			q = append(q, pd)
 			th = append(th, pd)
 		}
+		// a full cycle of election timeouts after preparing in view 0 (the next leader is the prepared view's leader)
+		for _, x := range []int{3, 4} {
+			c := rc(fmt.Sprintf("C09_Vote/me=2/weights=0/second_view=0/extra_timeouts=%d", x), ".", "C09_Vote", map[string]int{"me": 2, "weights": 0, "second_view": 0, "extra_timeouts": x})
+			th = append(th, c)
+			if x == 3 {
+				q = append(q, c)
+			}
+		}
+		for _, me := range []int{2, 3} {
+			c := rc(fmt.Sprintf("C13_CommitThenPrepared/me=%d", me), ".", "C13_CommitThenPrepared", map[string]int{"me": me})
+			if me == 3 {
+				c.RequireReach = []string{"C09.ctp.voted"} // (node 2 leads the view it times out into: its vote is stored, not sent)
+			}
+			th = append(th, c)
+			if me == 3 {
+				q = append(q, c)
+			}
+		}
 		// a member floods the node with PREPAREs for 40 different later views before the timeout
 		fl := rc("C09_Vote/me=2/weights=0/second_view=0/flood=40", ".", "C09_Vote", map[string]int{"me": 2, "weights": 0, "second_view": 0, "flood": 40})
 		q = append(q, fl)
@@ -578,7 +610,7 @@ func propTable() map[string]*PropSpec {
 				q = append(q, c)
 			}
 		}
-		t["C09"] = &PropSpec{ID: "C09", Quick: q, Thorough: th,
+		t["C09"] = &PropSpec{ID: "C09", Quick: q, Thorough: th, LabelPrefixes: []string{"C09."},
 			Assumptions: []string{"ideal signature registry, proposal/commitment stubs; committee of 4 with the listed concrete weight vectors ([1,1,1,1],[3,1,1,1],[1,2,3,4],[2,2,1,1])"},
 			Bounds:      []string{"vote side: node 1..3 accepts the view-0 proposal, receives PREPAREs from a symbolic subset, optionally adopts view 1 by an honest locked NEW_VIEW and prepares there from a symbolic subset, then times out; leader side: node 2 as leader of view 2 receives votes of 5 shapes (none / no proof / view-0 proof / view-1 proof / view-1 proof without block) from the three other members in 3 arrival orders"},
 			Outside:     []string{"locks from views above 1; committees other than 4; vote shapes with forged proofs (rejected before counting: C08)"},
@@ -620,6 +652,18 @@ func propTable() map[string]*PropSpec {
 				if me == 2 && (seq == 78 || seq == 88 || seq == 38) {
 					q = append(q, c)
 				}
+			}
+		}
+		// the transport reports an error for a PREPARE broadcast; a node that committed but whose callback failed
+		for _, me := range []int{1, 2} {
+			sf := mk(me, 0, 2, 0)
+			sf.Name += "/sendfail=1"
+			sf.Params["sendfail"] = 1
+			th = append(th, sf)
+			c5 := mk(me, 5, 1, 0)
+			th = append(th, c5, mk(me, 5, 2, 40))
+			if me == 1 {
+				q = append(q, sf, c5)
 			}
 		}
 		// two symbolic PREPREPAREs with a consumer that approves block-less proposals; a re-sync of the previous block
@@ -813,6 +857,14 @@ func propTable() map[string]*PropSpec {
 				q = append(q, c)
 			}
 		}
+		// the leader of view 0 alone holds the quorum weight
+		hl := rc("C13_Worker/me=0/events=1/weights=7", ".", "C13_Worker", map[string]int{"me": 0, "events": 1, "weights": 7})
+		q = append(q, hl)
+		th = append(th, hl, rc("C13_Worker/me=0/events=2/weights=7", ".", "C13_Worker", map[string]int{"me": 0, "events": 2, "weights": 7}))
+		// the commit callback fails by panicking
+		cp := rc("C13_CommitThenPrepared/me=2/commit_panics=1", ".", "C13_CommitThenPrepared", map[string]int{"me": 2, "commit_panics": 1})
+		q = append(q, cp)
+		th = append(th, cp)
 		// the node alone holds the quorum weight and the cached proposal of the next height was retransmitted
 		hv := rc("C13_FutureRound/me=3/weights=6/duplicate=1", ".", "C13_FutureRound", map[string]int{"me": 3, "weights": 6, "duplicate": 1})
 		q = append(q, hv)
